@@ -8,7 +8,9 @@ CAPTURED = ["", "ok\n", "line1\nline2\n", "tab\there", "cr\r\nlf", "back\\slash"
             "C:\\new\\temp", "out\\tmp.bin", "\\u2713 ok", "a\\/b", "\\r\\n"]
 
 GLOBS = ["*", "*.c", "src/*", "a?c", "[ab]*", "[!a]*", "dir/sub/*", "foo", "foo.tar.gz", "a b", "é*"]
-PATHS = ["foo", "bar", "src/a.c", "src/b.c", "dir/sub/x", "a b", "é", "foo.tar.gz", ".hidden", "x/y/z"]
+PATHS = ["foo", "bar", "src/a.c", "src/b.c", "dir/sub/x", "a b", "é", "foo.tar.gz", ".hidden", "x/y/z",
+         # legitimate but unusual spellings: runs of separators, dot components, URI-like names
+         "a///b", "file:///srv/x", "./foo", "a/./b", "a//b", "x/../y", "dir/", "/abs/p"]
 
 
 def hs(rng, hostile=0.5):
@@ -110,4 +112,22 @@ def rand_layout(rng, W, hostile=0.5, key_pool=None, expires=None):
             hs(rng, hostile * 0.6) + str(i), [hs(rng, hostile) for _ in range(rng.choice([0, 1, 3]))],
             [rand_rule(rng, names or ("s0",), hostile * 0.4) for _ in range(rng.choice([0, 1]))],
             [rand_rule(rng, names or ("s0",), hostile * 0.4) for _ in range(rng.choice([0, 1]))]))
-    return scen.mk_layout(W, keys, steps, insp, expires or rand_expiry(rng), hs(rng, hostile))
+    layout = scen.mk_layout(W, keys, steps, insp, expires or rand_expiry(rng), hs(rng, hostile))
+    # some entries describe the key without / with an empty hash-algorithm list: another description, another id
+    for kid in list(layout["keys"]):
+        if rng.random() < 0.25:
+            import hashlib
+            import jsongen
+            pub = layout["keys"].pop(kid)
+            pub.pop("keyid", None)
+            if rng.random() < 0.6:
+                pub.pop("keyid_hash_algorithms", None)
+            else:
+                pub["keyid_hash_algorithms"] = []
+            d = {"keytype": pub["keytype"], "scheme": pub["scheme"], "keyval": {"public": pub["keyval"]["public"]}}
+            if "keyid_hash_algorithms" in pub:
+                d["keyid_hash_algorithms"] = pub["keyid_hash_algorithms"]
+            nid = hashlib.sha256(jsongen.olpc_canon(d).encode()).hexdigest()
+            pub["keyid"] = nid
+            layout["keys"][nid] = pub
+    return layout
